@@ -70,6 +70,10 @@ pub fn main(args: &Args) -> i32 {
                 .prop_map(|(mut p, roll, sql)| {
                     if roll == 0 {
                         crate::plangen::crosspost_rollback_prelude(&mut p, sql);
+                    } else if roll == 1 {
+                        // a rollback onto an epoch whose relay set is empty, with a winner that
+                        // cannot be applied afterwards
+                        crate::plangen::empty_relays_rollback_prelude(&mut p, sql);
                     }
                     p
                 })
